@@ -191,31 +191,42 @@ def checkTable (tab : Table) (a b : FOperand C) : Bool :=
   | x, .frd _ G => tableOk tab G x
   | _, _ => true
 
-partial def run (tab : Table) (stack : List (FOperand C)) (mb : St := {}) : P String := do
+/-- `store`: the objects of a history (`Driver/FRDHist.lean`) that the program may name with
+`R i`; an empty slot (`none`: the step that would have made the object raised, or was an `eval`)
+makes the whole program answer `skip`.  Second component: the FRD / operand the program leaves
+(none when it raises, is skipped, or ends with `eval`).  A plain `frd` line has an empty store. -/
+partial def runS (tab : Table) (store : Array (Option (FOperand C))) (stack : List (FOperand C))
+    (mb : St := {}) : P (String × Option (FOperand C)) := do
   let E := mkEnv tab
   if (← atEnd) then
     match stack with
-    | [x] => pure (s!"ok {(mb.addOp x).show} " ++ showOperand x)
+    | [x] => pure (s!"ok {(mb.addOp x).show} " ++ showOperand x, some x)
     | _ => throw "stack"
   else
     let t ← tok
     match t with
-    | "F" => let f ← pLeafF; let f' := forceOp f; run tab (f' :: stack) (mb.addOp f')
-    | "S" => let c ← pC; run tab (.scalar c :: stack) mb
-    | "A" => let a ← pLeafA; run tab (a :: stack) mb
-    | "LT" => let a ← pLeafLT; run tab (a :: stack) mb
-    | "LS" => let a ← pLeafLS; run tab (a :: stack) mb
+    | "R" =>
+      let i ← pNat
+      match store[i]? with
+      | some (some x) => runS tab store (x :: stack) (mb.addOp x)
+      | some none => pure ("skip", none)
+      | none => throw s!"ref:{i}"
+    | "F" => let f ← pLeafF; let f' := forceOp f; runS tab store (f' :: stack) (mb.addOp f')
+    | "S" => let c ← pC; runS tab store (.scalar c :: stack) mb
+    | "A" => let a ← pLeafA; runS tab store (a :: stack) mb
+    | "LT" => let a ← pLeafLT; runS tab store (a :: stack) mb
+    | "LS" => let a ← pLeafLS; runS tab store (a :: stack) mb
     | "neg" =>
       match stack with
-      | x :: rest => let y := forceOp (DFRD.negOperand x); run tab (y :: rest) (mb.addOp y)
+      | x :: rest => let y := forceOp (DFRD.negOperand x); runS tab store (y :: rest) (mb.addOp y)
       | _ => throw "stack"
     | "pow" =>
       let k ← pInt
       match stack with
       | .frd n G :: rest =>
         match G.pow k with
-        | .ok y => let y' := force y; run tab (.frd n y' :: rest) (mb.addFRD y')
-        | .error e => pure (showErr e)
+        | .ok y => let y' := force y; runS tab store (.frd n y' :: rest) (mb.addFRD y')
+        | .error e => pure (showErr e, none)
       | _ => throw "stack"
     | "fb" =>
       let sign ← pC
@@ -230,8 +241,8 @@ partial def run (tab : Table) (stack : List (FOperand C)) (mb : St := {}) : P St
           | _, _ => throw "fb-operands"
         match r with
         | .error e => throw e
-        | .ok (.ok y) => let y' := forceOp y; run tab (y' :: rest) (mb.addOp y')
-        | .ok (.error e) => pure (showErr e)
+        | .ok (.ok y) => let y' := forceOp y; runS tab store (y' :: rest) (mb.addOp y')
+        | .ok (.error e) => pure (showErr e, none)
       | _ => throw "stack"
     | "sel" =>
       let rows ← pList pNat
@@ -239,8 +250,8 @@ partial def run (tab : Table) (stack : List (FOperand C)) (mb : St := {}) : P St
       match stack with
       | .frd n G :: rest =>
         match G.select rows cols with
-        | .ok y => let y' := force y; run tab (.frd n y' :: rest) (mb.addFRD y')
-        | .error e => pure (showErr e)
+        | .ok y => let y' := force y; runS tab store (.frd n y' :: rest) (mb.addFRD y')
+        | .error e => pure (showErr e, none)
       | _ => throw "stack"
     | "eval" =>
       let ws ← pList pRat
@@ -248,16 +259,18 @@ partial def run (tab : Table) (stack : List (FOperand C)) (mb : St := {}) : P St
       match stack with
       | [.frd _ G] =>
         match G.eval ws with
-          | .ok ms => pure (Id.run do
+          | .ok ms =>
+            let out : String := Id.run do
               let mut s := s!"ok {mb.show} eval {if G.smooth then 1 else 0} {ms.length} {G.p} {G.m}"
               for M in ms do
                 for i in List.finRange G.p do
                   for j in List.finRange G.m do
                     s := s ++ " " ++ showC (M i j)
-              pure s)
+              pure s
+            pure (out, none)
           | .error e =>
             -- an interpolating FRD answers between grid points with its spline (external)
-            if G.smooth then pure s!"ok {mb.show} interp {G.p} {G.m}" else pure (showErr e)
+            if G.smooth then pure (s!"ok {mb.show} interp {G.p} {G.m}", none) else pure (showErr e, none)
       | _ => throw "stack"
     | name =>
       match stack with
@@ -265,9 +278,14 @@ partial def run (tab : Table) (stack : List (FOperand C)) (mb : St := {}) : P St
         if !checkTable tab a b then throw "expj-missing" else
         match binop E name a b with
         | .error e => throw e
-        | .ok (.ok y) => let y' := forceOp y; run tab (y' :: rest) (mb.addOp y')
-        | .ok (.error e) => pure (showErr e)
+        | .ok (.ok y) => let y' := forceOp y; runS tab store (y' :: rest) (mb.addOp y')
+        | .ok (.error e) => pure (showErr e, none)
       | _ => throw "stack"
+
+/-- one `frd` line: a program without a store. -/
+def run (tab : Table) (stack : List (FOperand C)) (mb : St := {}) : P String := do
+  let r ← runS tab #[] stack mb
+  pure r.1
 
 def pTable : P Table := do
   let t ← tok
